@@ -528,6 +528,23 @@ def check_C14(env):
             if not same_result(ra, rb, 0):
                 raise Failure('C14', 'a bandit with a binarizer differs from a binarizer-free bandit fed the converted rewards '
                               '(%s)' % (nbh and nbh[0]), case, ra, rb, MODULE_OF.get((nbh or lp)[0]))
+        # add_arm with a (same) binarizer is an accepted call for every neighbourhood policy
+        try:
+            a.add_arm(9, core.binz_arm)
+            b.add_arm(9)
+        except Exception as e:      # noqa
+            raise Failure('C14', 'add_arm(arm, binarizer) raised %r (%s)' % (e, nbh and nbh[0]),
+                          dict(case, calls=calls + [['add_arm', 9, 'binz_arm']]), repr(e), 'accepted',
+                          MODULE_OF.get((nbh or lp)[0]))
+        rows3 = rand_rows(rng, 4, ARMS + [9], False, d)
+        call(a, ['partial_fit'] + rows3)
+        call(b, ['partial_fit'] + conv(rows3))
+        ra, rb = observe(a, lp, nbh), observe(b, plain, nbh)
+        if not same_result(ra, rb, 0):
+            raise Failure('C14', 'after add_arm with a binarizer the bandit differs from a binarizer-free bandit fed the '
+                          'converted rewards (%s)' % (nbh and nbh[0]), dict(case, calls=calls + [['add_arm', 9, 'binz_arm'],
+                                                                                                 ['partial_fit'] + rows3]),
+                          ra, rb, MODULE_OF.get((nbh or lp)[0]))
         yield case
 
 
@@ -545,6 +562,21 @@ def check_C17(env):
         if ctx:
             bad.append(['partial_fit', [1, 2], [1, 0], [[0, 0, 0], [1, 1, 1]]])           # wrong number of features
             bad.append(['predict_expectations', [[0, 0, 0]]])
+        if ctx:
+            # a history in which arm 1 has not been observed yet, then a batch of the wrong width that starts with arm 1
+            h2 = [['fit'] + rand_rows(rng, 7, ARMS[1:], binary, d)]
+            m2 = build({'arms': ARMS, 'lp': lp, 'np': nbh})
+            drive(m2, h2)
+            c2 = ['partial_fit', [1, 1, 2, 3], [1, 0, 1, 0], [[0, 0, 0], [1, 1, 1], [1, 0, 1], [0, 1, 0]]]
+            before = learned_state(m2)
+            try:
+                call(m2, c2)
+            except Exception:       # noqa
+                if learned_state(m2) != before:
+                    raise Failure('C17', 'rejected partial_fit (wrong number of features, first rows for a not yet observed '
+                                  'arm) changed the bandit (%s/%s)' % (lp[0], nbh and nbh[0]),
+                                  {'arms': ARMS, 'lp': lp, 'np': nbh, 'calls': h2, 'rejected': [c2]}, None, None,
+                                  MODULE_OF.get((nbh or lp)[0]))
         case = {'arms': ARMS, 'lp': lp, 'np': nbh, 'calls': h, 'rejected': bad}
         m = build(case)
         drive(m, h)
@@ -608,6 +640,17 @@ def check_C18(env):
             raise Failure('C18', 'the caller\'s arm list or policy tuple was modified', case, [arms, repr(lpo), repr(npo)],
                           [snap[0], repr(snap[1]), repr(snap[2])], MODULE_OF.get((nbh or lp)[0]))
         yield case
+    # a parameter dictionary handed to a policy tuple is the caller's
+    lp, nbh = TREE_LPS[0], ['TreeBandit', {'tree_parameters': {'max_depth': 3}}]
+    if in_focus(env, lp, nbh):
+        from mabwiser.mab import MAB
+        params = {'max_depth': 3}
+        npo = core.make_np(['TreeBandit', {'tree_parameters': params}])
+        m = MAB(list(ARMS), core.make_lp(lp), npo, seed=4)
+        if params != {'max_depth': 3}:
+            raise Failure('C18', 'the tree_parameters dictionary of the caller was modified by the constructor',
+                          {'arms': ARMS, 'lp': lp, 'np': nbh, 'calls': []}, params, {'max_depth': 3}, 'treebandit')
+        yield {}
 
 
 # =========================================================================================== C19
@@ -879,3 +922,165 @@ def check_C13(env):
 CHECKS = {'C01': check_C01, 'C02': check_C02, 'C03': check_C03, 'C04': check_C04, 'C05': check_C05, 'C06': check_C06,
           'C07': check_C07, 'C08': check_C08, 'C09': check_C09, 'C10': check_C10, 'C11': check_C11, 'C12': check_C12,
           'C13': check_C13, 'C14': check_C14, 'C17': check_C17, 'C18': check_C18, 'C19': check_C19, 'C20': check_C20}
+
+
+# =========================================================================================== C15 / C16 (Simulator)
+def _sim_data(rng, n=24, dim=2):
+    d = [ARMS[int(rng.integers(3))] for _ in range(n)]
+    r = [int(rng.integers(0, 11)) for _ in range(n)]
+    x = [[int(rng.integers(-3, 4)) for _ in range(dim)] for _ in range(n)]
+    return d, r, x
+
+
+SIM_BANDITS = [(['EpsilonGreedy', {'epsilon': 0.0}], None), (['UCB1', {'alpha': 1.5}], None),
+               (['EpsilonGreedy', {'epsilon': 0.3}], None), (['ThompsonSampling', {'binarizer': 'binz'}], None),
+               (['LinUCB', {'alpha': 1.2, 'l2_lambda': 1.0}], None), (['LinGreedy', {'epsilon': 0.0, 'l2_lambda': 1.0}], None),
+               (['EpsilonGreedy', {'epsilon': 0.0}], ['Radius', {'radius': 3.0, 'metric': 'euclidean'}]),
+               (['UCB1', {'alpha': 1.5}], ['KNearest', {'k': 3, 'metric': 'cityblock'}]),
+               (['EpsilonGreedy', {'epsilon': 0.0}], ['Radius', {'radius': 3.0, 'metric': 'cityblock'}]),
+               (['EpsilonGreedy', {'epsilon': 0.0}], ['LSHNearest', {'n_dimensions': 2, 'n_tables': 2}]),
+               (['EpsilonGreedy', {'epsilon': 0.0}], ['Clusters', {'n_clusters': 2}])]
+SIM_DETERMINISTIC = {0, 1, 4, 5, 6, 7, 8, 9, 10}
+
+
+def _run_sim(case, quiet=True):
+    import logging
+    from mabwiser.simulator import Simulator
+    bandits = [('b%d' % i, build({'arms': ARMS, 'lp': lp, 'np': nbh, 'seed': case['seed']}))
+               for i, (lp, nbh) in enumerate(case['bandits'])]
+    import contextlib
+    import io
+    import os
+    logging.disable(logging.CRITICAL)
+    try:
+        with open(os.devnull, 'w') as dn, contextlib.redirect_stdout(dn), contextlib.redirect_stderr(dn):
+            sim = Simulator(bandits, case['d'], case['r'], case['x'], test_size=case['test_size'],
+                            is_ordered=case['is_ordered'], batch_size=case['batch_size'], seed=case['seed'],
+                            is_quick=case['is_quick'])
+            sim.run()
+    finally:
+        logging.disable(logging.NOTSET)
+    return sim
+
+
+def _api_twin(case, lp, nbh, train, test):
+    """drive an identically configured bandit through the public API with the simulator's split and protocol"""
+    m = build({'arms': ARMS, 'lp': lp, 'np': nbh, 'seed': case['seed']})
+    ctx = needs_ctx(lp, nbh)
+    td = [case['d'][i] for i in train]
+    tr = [case['r'][i] for i in train]
+    tx = [case['x'][i] for i in train]
+    m.fit(td, tr, tx if ctx else None)
+    preds, exps = [], []
+    bs = case['batch_size'] or len(test)
+    for s in range(0, len(test), bs):
+        rows = test[s:s + bs]
+        qx = [case['x'][i] for i in rows]
+        if ctx:
+            p = m.predict(qx)
+            p = p if isinstance(p, list) else [p]
+        else:
+            p = [m.predict() for _ in rows]
+        preds += p
+        if case['batch_size']:
+            e = m.predict_expectations(qx if ctx else None)
+            exps += e if isinstance(e, list) else [e]
+            m.partial_fit([case['d'][i] for i in rows], [case['r'][i] for i in rows], qx if ctx else None)
+    return preds, exps
+
+
+def check_C15(env):
+    rng = env['rng']
+    for is_ordered, batch_size, is_quick in ((True, 0, False), (False, 0, True), (True, 3, False), (True, 10, True),
+                                             (False, 4, False), (True, 1, True)):
+        d, r, x = _sim_data(rng)
+        for group in ([0, 1, 4, 6, 8, 7], [2, 3, 5, 9, 10], [6], [7, 6]):
+            bandits = [SIM_BANDITS[i] for i in group if in_focus(env, *SIM_BANDITS[i])]
+            if not bandits:
+                continue
+            if batch_size and any(i not in SIM_DETERMINISTIC for i in group):
+                continue         # online protocol compared for deterministic policies only (the order of draws is not specified)
+            case = {'bandits': bandits, 'd': d, 'r': r, 'x': x, 'test_size': 0.4, 'is_ordered': is_ordered,
+                    'batch_size': batch_size, 'is_quick': is_quick, 'seed': 21}
+            sim = _run_sim(case)
+            test = [int(i) for i in sim.test_indices]
+            train = [i for i in range(len(d)) if i not in set(test)]
+            if not is_ordered:
+                # the simulator keeps train rows in the order produced by train_test_split
+                from sklearn.model_selection import train_test_split
+                train, test2 = train_test_split(list(range(len(d))), test_size=0.4, random_state=21)
+                train = [int(i) for i in train]
+            for k, (lp, nbh) in enumerate(bandits):
+                preds, exps = _api_twin(case, lp, nbh, train, test)
+                got = list(sim.bandit_to_predictions['b%d' % k])
+                if not same_result(got, preds, 0):
+                    raise Failure('C15', 'Simulator predictions of %s/%s differ from the public API with the same split and '
+                                  'protocol (ordered=%r batch=%r quick=%r, %d bandits)' % (lp[0], nbh and nbh[0], is_ordered,
+                                                                                         batch_size, is_quick, len(bandits)),
+                                  dict(case, lp=lp, np=nbh), got, preds, 'simulator')
+            yield case
+
+
+def check_C16(env):
+    rng = env['rng']
+    for is_ordered, batch_size, test_size in ((True, 0, 0.3), (False, 0, 0.25), (True, 4, 0.5), (False, 5, 0.4), (True, 7, 0.45)):
+        d, r, x = _sim_data(rng, 23)
+        if is_ordered:
+            d = [1 if v == 3 else v for v in d[:14]] + d[14:]         # arm 3 absent from the training rows
+        bandits = [SIM_BANDITS[i] for i in (0, 1, 6)]
+        case = {'bandits': bandits, 'd': d, 'r': r, 'x': x, 'test_size': test_size, 'is_ordered': is_ordered,
+                'batch_size': batch_size, 'is_quick': False, 'seed': 5}
+        sim = _run_sim(case)
+        n = len(d)
+        test = [int(i) for i in sim.test_indices]
+        if len(set(test)) != len(test) or not set(test) <= set(range(n)):
+            raise Failure('C16', 'test indices are not distinct rows', case, test, None, 'simulator')
+        if is_ordered and test != list(range(n - len(test), n)):
+            raise Failure('C16', 'ordered split: the test rows are not the last rows', case, test, None, 'simulator')
+        train = [i for i in range(n) if i not in set(test)]
+
+        def stats(rows):
+            out = {}
+            for a in ARMS:
+                rs = np.array([r[i] for i in rows if d[i] == a])
+                out[a] = ({'count': rs.size, 'sum': rs.sum(), 'min': rs.min(), 'max': rs.max(), 'mean': rs.mean(),
+                           'std': rs.std()} if rs.size else {'count': 0, 'sum': 0, 'min': 0, 'max': 0, 'mean': 0, 'std': 0})
+            return out
+        for nm, rows, got in (('total', range(n), sim.arm_to_stats_total), ('train', train, sim.arm_to_stats_train),
+                              ('test', test, sim.arm_to_stats_test)):
+            exp = stats(list(rows))
+            for a in ARMS:
+                for kk in exp[a]:
+                    if not close(got[a][kk], exp[a][kk], 1e-9):
+                        raise Failure('C16', '%s statistics of arm %r: %s is %r, recomputation gives %r' % (nm, a, kk, got[a][kk],
+                                                                                                  exp[a][kk]), case,
+                                      got[a], exp[a], 'simulator')
+        for a in ARMS:
+            for kk in ('count', 'sum'):
+                if not close(sim.arm_to_stats_train[a][kk] + sim.arm_to_stats_test[a][kk], sim.arm_to_stats_total[a][kk], 1e-9):
+                    raise Failure('C16', 'train + test %s of arm %r is not the total' % (kk, a), case, None, None, 'simulator')
+        for k in range(len(bandits)):
+            name = 'b%d' % k
+            if len(sim.bandit_to_predictions[name]) != len(test):
+                raise Failure('C16', 'bandit %d has %d predictions for %d test rows' % (k, len(sim.bandit_to_predictions[name]),
+                                                                                     len(test)), case, None, None, 'simulator')
+            mn, av, mx = sim.bandit_to_arm_to_stats_min[name], sim.bandit_to_arm_to_stats_avg[name], sim.bandit_to_arm_to_stats_max[name]
+            if batch_size:
+                # online runs keep one evaluation per batch: {batch: {arm: stats}} or totals under 'total'
+                mn, av, mx = [v.get('total', v) if isinstance(v, dict) else v for v in (mn, av, mx)]
+            try:
+                cnt = sum(av[a]['count'] for a in ARMS)
+            except Exception:       # noqa
+                continue
+            if cnt != len(test):
+                raise Failure('C16', 'evaluated counts sum to %d for %d test rows' % (cnt, len(test)), case, av, None, 'simulator')
+            for a in ARMS:
+                if av[a]['count'] and not (mn[a]['sum'] <= av[a]['sum'] + 1e-9 and av[a]['sum'] <= mx[a]['sum'] + 1e-9):
+                    raise Failure('C16', 'min / mean / max analyses of arm %r are not ordered' % a, case,
+                                  [mn[a], av[a], mx[a]], None, 'simulator')
+        yield case
+
+
+CHECKS['C15'] = check_C15
+CHECKS['C16'] = check_C16
+MODULE_OF['Simulator'] = 'simulator'
